@@ -81,7 +81,7 @@ class Units:
                     name = m.group(2)
                     if name in FIELD_UNITS and any(x in str(ty) for x in FIELD_OWNERS):
                         unit = FIELD_UNITS[name]
-                    elif "jrsonnet_ir::source::Span" in str(ty) and m.group(1) in ("1", "2") and not name.strip("0123456789"):
+                    elif re.search(r"jrsonnet_ir::[a-z_:]*Span\b", str(ty)) and m.group(1) in ("1", "2") and not name.strip("0123456789"):
                         unit = B
         return unit
 
@@ -203,6 +203,17 @@ def run(prog):
                             checked += 1
                             if got != want:
                                 probs.setdefault("arg:%s<-%s" % (short_path(path), got), (t["line"], "a %s value is passed where %s expects %s offsets" % (got, short_path(path), want)))
+                fnp = t.get("fn") or ""
+                if fnp in ("core::iter::traits::iterator::Iterator::take", "core::iter::traits::iterator::Iterator::skip",
+                           "core::iter::traits::iterator::Iterator::nth", "core::iter::traits::iterator::Iterator::step_by") and len(t["args"]) > 1:
+                    a0 = (t.get("argtys") or [""])[0]
+                    want = C if "core::str::iter::Chars" in a0 else (B if "core::str::iter::Bytes" in a0 else None)
+                    got = un.op_unit(t["args"][1])
+                    if want is not None and got is not None:
+                        checked += 1
+                        if got != want:
+                            probs.setdefault("count:%s<-%s" % (fnp.rsplit("::", 1)[1], got), (t["line"], "a %s value is used to count %s of a %s iterator"
+                                             % (got, "characters" if want == C else "bytes", "chars()" if want == C else "bytes()")))
                 if (t.get("fn") or "") == "core::iter::traits::iterator::Iterator::chain":
                     us = [un.op_unit(a) for a in t["args"]]
                     if us[0] is not None and us[1] is not None:
